@@ -5,7 +5,7 @@
    strings (no length bound).  DELIMS = ",)" as passed by STEPattribute::STEPread. *)
 From Coq Require Import List ZArith NArith Bool.
 From SC.gen Require Import SevTable Consts.
-From SC Require Import P21Lex P21Lex_Proofs.
+From SC Require Import P21Lex P21Lex_Proofs P21Enum P21Enum_Proofs.
 Import ListNotations.
 Local Open Scope Z_scope.
 
@@ -88,6 +88,20 @@ Proof.
   intros rbuf. split; [apply write_real_keeps|]. split; [apply write_real_plain|apply write_real_only_inserts].
 Qed.
 Print Assumptions c09_write_real_shape.
+
+(* ENUMERATION / BOOLEAN / LOGICAL (sdaiEnum.cc ReadEnum): for every table, search bound and word,
+   a value is produced only when the word read, upper-cased, is the table entry of that value,
+   the entry lies in the searched part and is not the entry naming the unset state. *)
+Theorem c09_enum_value_is_spelled : forall elems nsearch null_index w j,
+  lookup elems nsearch null_index w = Some j ->
+  nth_error elems (Z.to_nat j) = Some (map upc w) /\ 0 <= j < Z.of_nat nsearch /\ null_index <> Some j.
+Proof. exact read_value_is_spelled. Qed.
+Print Assumptions c09_enum_value_is_spelled.
+
+Theorem c09_logical_unset_is_no_literal : forall w,
+  map upc w = str [85; 78; 83; 69; 84] -> lookup LOGICAL_TABLE 4 (Some 2) w = None.
+Proof. exact logical_unset_is_no_literal. Qed.
+Print Assumptions c09_logical_unset_is_no_literal.
 
 (* non-vacuity / sanity on concrete tokens *)
 Example c09_examples :
